@@ -19,7 +19,7 @@ META = dict(
     text="On 3 grids, 1-2 energies and 3 ensemble shapes, every ordered pair of limits from a 7-value alphabet (integer, fractional, maximal), 3 step "
          "sizes and 3 segmentations are measured with AnnularDetector, DiffractionPatterns.integrate_radial, FlexibleAnnularDetector + "
          "integrate_radial, SegmentedDetector and an explicit per-pixel sum, and compared; additivity over adjacent ranges and the width of every "
-         "flexible bin (against the axis metadata) are checked.",
+         "flexible bin (against the axis metadata) are checked. A breadth-first search over all sequences (depth 2 / 3) of 5 wave variants on ONE detector object (9 detector configurations) requires the last measurement to equal a fresh detector's.",
     note="Bound: grids <= 36 pixels, the limit alphabet. float32 sums: tolerance 2e-5 of the total intensity. Limits are chosen off the discrete "
          "pixel radii where they are fractional; integer limits may coincide with pixel radii, which is part of the test.",
 )
